@@ -84,11 +84,15 @@ type Explorer struct {
 	shareWrites    map[string]int
 	curHarness     string
 	curParams      map[string]int
+	Out            map[string]int
+	sampleTape     []TapeEntry
+	sampleScore    int
+	samplePC       string
 }
 
 func NewExplorer(s *Solver) *Explorer {
 	return &Explorer{solver: s, Unsupported: map[string]int{}, KnownHits: map[string]int{}, Reached: map[string]int{},
-		maxChoices: 600, maxFailures: 3, openKnown: map[string]bool{}, assertPaths: map[string]int{}, shareWrites: map[string]int{}}
+		maxChoices: 600, maxFailures: 3, openKnown: map[string]bool{}, assertPaths: map[string]int{}, shareWrites: map[string]int{}, Out: map[string]int{}}
 }
 
 func (ex *Explorer) pcTerms(n int) []*Term {
